@@ -73,6 +73,11 @@ type Disk struct {
 	Record      bool
 }
 
+// OpenWriterDirSyncs mirrors the production fs package: does the first Sync on a handle obtained from
+// OpenWriter also fsync the directory (as handles from Create do)? Set once at start-up from a probe of
+// the real fs.FS, so that simfs keeps modelling what the production layer does.
+var OpenWriterDirSyncs = false
+
 func New() *Disk {
 	return &Disk{files: map[string]*file{}, stable: map[string][]byte{}, OpenHandles: map[int]string{}, Record: true}
 }
@@ -202,7 +207,7 @@ func (d *Disk) open(kind, name string, writable bool) (*handle, error) {
 		d.record(Event{Kind: kind, Name: name, Failed: true})
 		return nil, fmt.Errorf("simfs: open %s: %w", name, os.ErrNotExist)
 	}
-	h := d.newHandle(name, f, writable, false)
+	h := d.newHandle(name, f, writable, writable && OpenWriterDirSyncs)
 	d.record(Event{Kind: kind, Name: name, Handle: h.id})
 	return h, nil
 }
